@@ -55,3 +55,11 @@ package types
 //@   loop 1 invariant off(newCert.Claims) == 0
 //@   loop 1 invariant len(newCert.Claims) == cntC(seq(c.Claims), fromBlock, toBlock, rangeindex + 1)
 //@   loop 1 invariant forall(k, 0, rangeindex + 1, keepBlk(c.Claims[k].BlockNum, fromBlock, toBlock) ==> cntC(seq(c.Claims), fromBlock, toBlock, k) < len(newCert.Claims) && newCert.Claims[cntC(seq(c.Claims), fromBlock, toBlock, k)] == c.Claims[k])
+
+// ---- size estimate: an uninterpreted function of the content (float arithmetic is not modelled; assumption A7)
+
+//@ spec fn estSize(bs []bridgesync.Bridge, nb int, cs []bridgesync.Claim, nc int, ty int) int
+//@ func (c *CertificateBuildParams) EstimatedSize
+//@   trusted
+//@   ensures c == nil ==> result == 0
+//@   ensures c != nil ==> result == estSize(seq(c.Bridges), len(c.Bridges), seq(c.Claims), len(c.Claims), c.CertificateType)
